@@ -112,6 +112,14 @@ theorem cast_prim (o : TraceOpts) (p : Prim) (v : Val) (a : Arr) (nl : Bool) (hw
   | bytes =>
     cases v <;> simp [Prim.wt] at hw
     simp [primTarget, lv, dvalOf, Read.cast, Read.castScalar, Read.castLeaf, Read.ofLeaf]
+  -- borrowed targets: the typed-read specification (`Read.castLeaf`) hands a string / binary value of ANY column to
+  -- `&'de str` / `&'de [u8]` as a BORROWED slice (`visit_borrowed_str` / `visit_borrowed_bytes`)
+  | strRef | cowStr =>
+    cases v <;> simp [Prim.wt] at hw
+    simp [primTarget, lv, dvalOf, Read.cast, Read.castScalar, Read.castLeaf, Read.ofLeaf, Read.strBytes]
+  | bytesRef | bytesSeq =>
+    cases v <;> simp [Prim.wt] at hw
+    simp [primTarget, lv, dvalOf, Read.cast, Read.castScalar, Read.castLeaf, Read.ofLeaf]
 
 /-! ### helpers for the containers -/
 
